@@ -142,7 +142,7 @@ where
   showMcDict (kvs : List (List Nat × McValue)) : String :=
     -- `HashMap::insert` in pop order: a later insert overwrites; printed sorted by key bytes
     let dedup := kvs.foldl (fun acc (kv : List Nat × McValue) => (acc.filter fun x => x.1 != kv.1) ++ [kv]) []
-    let sorted := dedup.toArray.qsort (fun a b => OxiVerif.Model.ltBytes a.1 b.1) |>.toList
+    let sorted := dedup.toArray.qsort (fun a b => ltBytes a.1 b.1) |>.toList
     "D{" ++ joinWith ";" (sorted.map fun kv => hexField kv.1 ++ "=" ++ showMc kv.2) ++ "}"
 
 /-- `String::from_utf8_lossy`: printed exactly when nothing was replaced -/
